@@ -1000,3 +1000,5 @@ def run(ctx):
         "whole `random` path for every nnz of the listed sizes; leg C: eye x {coo,gcxs,dok} x dtypes vs np.eye; full/zeros/ones/empty and *_like over shapes x dtypes x "
         "formats x fills vs NumPy; asarray over input kinds; sparse.random: every nnz for sizes <= 40, branch boundaries on larger sizes, densities, determinism, "
         "formats/fills/index dtypes; non-trivial = something is stored / requested, distinct by content hash")
+    import extra_ops  # operation tables closing the measured coverage gaps (tools/coverage_audit.py; coverage/API_COVERAGE.md)
+    extra_ops.run(ctx, PID)
